@@ -39,8 +39,17 @@ claim("C06",
       "The 'reported through ok/error rather than a silently wrong answer' clause decided for every call site and return in mat, lapack64 and lapack/gonum: no LAPACK/mat status is dropped, no success is returned on the path where a callee failed, every solver can return Condition and does so exactly under cond > ConditionTolerance. Reconstruction identities and update formulas are NOT decided.",
       TRUST, "DESIGN.md §3.6, §4 C06")
 
+claim("C09",
+      "custom AST/CFG concurrency-protocol analysis (captured-variable ordering, WaitGroup/channel pairing, serial/concurrent sibling agreement) + pool typestate",
+      "The synchronisation structure behind C09 decided at every go statement and every pooled workspace: shared writes are mutex- or WaitGroup-ordered with all other accesses, Add/Done/Wait and close/range are paired, serial and concurrent siblings read the same settings, workspaces are never double-put, used after put or retained. Schedules are not explored and nothing runs; arithmetic tile disjointness and bit-identical sums are NOT decided.",
+      TRUST, "DESIGN.md §3.7, §3.8, §4 C09")
+claim("C19",
+      "custom CFG must-pass-through analysis of the Method.Run shutdown protocol with computed helper summaries",
+      "The method-side termination protocol of Minimize decided for all Run implementations and paths: result is drained to closure before operation is closed, operation is closed exactly once on every normal path. Counters, statuses, convergence and LP optimality are NOT decided.",
+      TRUST, "DESIGN.md §3.8, §4 C19")
+
 PENDING = "check not built yet in this round (see DESIGN.md §8 build order); not claimed until it is"
-for p in ["C09","C12","C16","C17","C18","C19"]:
+for p in ["C12","C16","C17","C18"]:
     na(p, PENDING)
 
 na("C10", "every clause is an identity between floating-point values of different calls (permutation/affine invariance, quantile coherence, PSD-ness); no clause is visible in the shape of the code, so no sound static rule applies")
